@@ -161,10 +161,12 @@ Theorem C08_pattern_eq_is_ext_equality : forall a b,
 Proof. exact pc_eq_is_ext_equality. Qed.
 Print Assumptions C08_pattern_eq_is_ext_equality.
 
+(* the stored extent of a pattern concept need not be ascending (close_by_one_objectwise yields
+   e.g. (0, 1, 4, 2)); == ignores the order, and so does the hash (it sorts) *)
 Theorem C08_pattern_eq_implies_equal_hash : forall (PH : list nat * option Z -> Z) a b,
-  increasing (pc_extent_i a) -> increasing (pc_extent_i b) ->
+  NoDup (pc_extent_i a) -> NoDup (pc_extent_i b) ->
   pc_eq a b = COk true -> pc_hashv PH a = pc_hashv PH b.
-Proof. exact pc_eq_hash. Qed.
+Proof. exact pc_eq_hash_nodup. Qed.
 Print Assumptions C08_pattern_eq_implies_equal_hash.
 
 Theorem C08_pattern_partial_order :
